@@ -104,6 +104,16 @@ Example C20_early_unlock_refuted :
   Conc.Atomic.finished g /\ reg (Conc.Atomic.st g) "e" = 2 /\ rt (Conc.Atomic.st g) "e" = 2 /\ pub (Conc.Atomic.st g) "e" = 1.
 Proof. exact ConcP.AtomicP.early_unlock_refuted. Qed.
 
+(* the hypothesis of C20_atomic_calls_consistent, read off the CURRENT source: in the table regenerated by the lock-order
+   extractor, AddConn and RemoveConn acquire the cluster state's mutex (the routing-table update) and the gossip state's
+   mutex (the publication) at points where they hold the manager's mutex - so each of them is one critical section of the
+   micro-step machine. A change that releases the manager's mutex before the cluster is told (or publishes from another
+   goroutine) makes this theorem fail on the regenerated table. *)
+Theorem C20_registry_changes_publish_under_manager_lock :
+  holders_present lock_holders = true /\
+  (forall hs, holders_present hs = true -> forall r, In r required_holders -> In r hs).
+Proof. exact (conj lock_holders_required holders_present_sound). Qed.
+
 Print Assumptions C20_atomic_calls_consistent.
 Print Assumptions C20_early_unlock_refuted.
 Print Assumptions C20_ordered_no_deadlock.
@@ -120,3 +130,4 @@ Print Assumptions C20_example_state.
 Print Assumptions C20_broken_script_rejected.
 Print Assumptions C20_broken_script_deadlocks.
 Print Assumptions C20_quiescent_consistent.
+Print Assumptions C20_registry_changes_publish_under_manager_lock.
